@@ -264,23 +264,46 @@ func (x *exec) memLab(seed int) {
 	default:
 		base = 0x7fff0
 	}
+	// The lab keeps its own byte model of what it stored (last write wins),
+	// so the view is judged against the history, not against the memory's
+	// own reads.
+	bytesModel := map[uint64]byte{}
 	var stored []uint64
-	for i, n := 0, r.Range(1, 10); i < n; i++ {
-		w := r.Range(1, 3)
-		if r.Chance(1, 5) {
-			w = r.Range(4, 20)
-		}
-		a := base + uint64(r.Intn(48))
-		if a+uint64(w) <= a {
-			continue // would reach the end of the address space: not representable
-		}
-		mem.Store(model.Addr(a), expr.NewConst(r.Bytes(w), expr.Width(w)), expr.Width(w))
-		for k := 0; k < w; k++ {
-			stored = append(stored, a+uint64(k))
+	fill := func(n int) {
+		for i := 0; i < n; i++ {
+			w := r.Range(1, 3)
+			if r.Chance(1, 5) {
+				w = r.Range(4, 20)
+			}
+			if r.Chance(1, 12) {
+				w = r.Range(33, 200) // one value wider than 32 bytes
+			}
+			a := base + uint64(r.Intn(48))
+			if a+uint64(w) <= a {
+				continue // would reach the end of the address space: not representable
+			}
+			bs := r.Bytes(w)
+			mem.Store(model.Addr(a), expr.NewConst(bs, expr.Width(w)), expr.Width(w))
+			for k := 0; k < w; k++ {
+				stored = append(stored, a+uint64(k))
+				bytesModel[a+uint64(k)] = bs[k]
+			}
 		}
 	}
+	fill(r.Range(1, 10))
 	if len(stored) == 0 {
 		return
+	}
+	if r.Chance(1, 2) {
+		// a first view, then more stores that extend / bridge what the first
+		// view saw, then the view that is judged
+		var first consoleui.Mode
+		core.Guard(func() {
+			first = memview.New(mem)
+			captureRender(func() error { return first.View().Print(12) })
+		})
+		fill(r.Range(1, 4))
+		x.ctx.Probe("memlab_two_phases")
 	}
 	x.ctx.Probe("memlab")
 	if base == ^uint64(0)-63 {
@@ -297,7 +320,7 @@ func (x *exec) memLab(seed int) {
 		x.fail("C24", "render-no-crash", "render-panic/memory-lab/"+fn, "memory view Print panicked: %s", msg)
 		return
 	}
-	exp := expectedMemRows(mem)
+	exp := rowsFromModel(bytesModel)
 	for _, e := range exp {
 		runs, in := 0, false
 		for _, c := range e.Cells {
